@@ -351,6 +351,14 @@ func (sc *sortCtx) structName(t types.Type, u *types.Struct) string {
 
 func (sc *sortCtx) structSort(t types.Type, u *types.Struct) string {
 	name := sc.structName(t, u)
+	// distinct Go types with the same short name (sync.Mutex / internal/sync.Mutex)
+	for i := 2; ; i++ {
+		prev, ok := sc.named[name]
+		if !ok || types.Identical(prev, t) {
+			break
+		}
+		name = fmt.Sprintf("%s_%d", sc.structName(t, u), i)
+	}
 	if _, ok := sc.structs[name]; ok {
 		return name
 	}
